@@ -7,6 +7,7 @@ import (
 	"io"
 	"runtime"
 	"runtime/debug"
+	"strings"
 	"unsafe"
 
 	"verif/simrt"
@@ -29,6 +30,146 @@ type streamObs struct {
 	// EagerRewrites counts blocks completed between two NextBlock calls
 	EagerRewrites int
 	Collections   int // garbage collections the scenario placed
+	// companion parse (rs.Companion): turns taken, and what came out wrong
+	ReusedIP   bool // the blocks were completed through the process-wide caller-held InlineParser
+	CompTurns  int
+	CompTiling *Failure // the companion's own blocks violate a C01 clause
+	CompModel  *Failure // the companion's result differs from Parse(companion document)
+}
+
+// chunkReader serves b in reads of at most n bytes, then (0, io.EOF).
+type chunkReader struct {
+	b []byte
+	n int
+}
+
+func (c *chunkReader) Read(p []byte) (int, error) {
+	if len(c.b) == 0 {
+		return 0, io.EOF
+	}
+	n := c.n
+	if n > len(p) {
+		n = len(p)
+	}
+	if n > len(c.b) {
+		n = len(c.b)
+	}
+	copy(p, c.b[:n])
+	c.b = c.b[n:]
+	return n, nil
+}
+
+// companion is the second parse a caller multiplexes with the main one.
+type companion struct {
+	scn    *CompanionScn
+	doc    []byte
+	p      *commonmark.BlockParser
+	blocks []*commonmark.RootBlock
+	atSnap []string
+	refs   commonmark.ReferenceMap
+	done   bool
+	err    error
+	first  string // parse mode: snapshot of the first turn's result
+	fail   *Failure
+	inRead bool // turns are taken INSIDE the main reader's Read calls (the reader re-enters the library)
+	parse  bool // a turn is a complete in-memory Parse
+}
+
+// reusedIP is the caller-held InlineParser of the "reused-ip" consumer; it
+// lives as long as the process (its history is what a replay's prelude replays).
+var reusedIP *commonmark.InlineParser
+
+func newCompanion(c *CompanionScn) *companion {
+	if c == nil {
+		return nil
+	}
+	doc := append([]byte(nil), c.Doc...)
+	chunk := c.Chunk
+	if chunk < 1 {
+		chunk = 1
+	}
+	cp := &companion{scn: c, doc: doc, refs: make(commonmark.ReferenceMap)}
+	cp.inRead = strings.HasSuffix(c.Mode, "@read")
+	cp.parse = strings.HasPrefix(c.Mode, "parse")
+	if !cp.parse {
+		cp.p = commonmark.NewBlockParser(&chunkReader{b: append([]byte(nil), doc...), n: chunk})
+	}
+	return cp
+}
+
+// turn advances the companion: steps NextBlock calls (steps < 0: to the end).
+func (cp *companion) turn(steps int) {
+	if cp.parse {
+		blocks, refs := commonmark.Parse(append([]byte(nil), cp.doc...))
+		got := snapAll(blocks) + snapRefs(refs)
+		if cp.first == "" {
+			cp.first = got
+			cp.blocks, cp.refs = blocks, refs
+		} else if got != cp.first && cp.fail == nil {
+			cp.fail = &Failure{Check: "snap", Observed: "companion: in-memory Parse of the same bytes gave a different result on a later turn: " + firstDiff(got, cp.first)}
+		}
+		return
+	}
+	for i := 0; (steps < 0 || i < steps) && !cp.done; i++ {
+		b, err := cp.p.NextBlock()
+		if err != nil {
+			cp.done, cp.err = true, err
+			if b != nil {
+				cp.blocks = append(cp.blocks, b)
+			}
+			return
+		}
+		if b == nil || len(cp.blocks) > 4*len(cp.doc)+16 {
+			cp.done, cp.err = true, errors.New("harness: companion NextBlock misbehaves")
+			return
+		}
+		cp.blocks = append(cp.blocks, b)
+		cp.refs.Extract(b.Source, b.AsNode())
+		cp.atSnap = append(cp.atSnap, snapRoot(b))
+	}
+}
+
+// finish drains the companion and evaluates it as a parse of its own.
+func (cp *companion) finish(obs *streamObs) {
+	cp.turn(-1)
+	if cp.parse {
+		obs.CompModel = cp.fail
+		obs.CompTiling = tilingCheck(cp.doc, cp.blocks)
+		return
+	}
+	for i, b := range cp.blocks {
+		if i < len(cp.atSnap) && snapRoot(b) != cp.atSnap[i] {
+			obs.CompTiling = &Failure{Check: "stability", Observed: fmt.Sprintf("companion: block %d changed after delivery: %s", i, firstDiff(cp.atSnap[i], snapRoot(b)))}
+			break
+		}
+	}
+	if obs.CompTiling == nil {
+		obs.CompTiling = tilingCheck(cp.doc, cp.blocks)
+	}
+	if obs.CompTiling != nil && !strings.HasPrefix(obs.CompTiling.Observed, "companion") {
+		obs.CompTiling.Observed = "companion: " + obs.CompTiling.Observed
+	}
+	ip := &commonmark.InlineParser{ReferenceMatcher: cp.refs}
+	for _, b := range cp.blocks {
+		ip.Rewrite(b)
+	}
+	model, modelRefs := commonmark.Parse(append([]byte(nil), cp.doc...))
+	switch {
+	case cp.err != io.EOF:
+		obs.CompModel = &Failure{Check: "eof", Observed: fmt.Sprintf("companion: healthy reader, parse ended with %v", cp.err), Expected: "io.EOF"}
+	case len(model) != len(cp.blocks):
+		obs.CompModel = &Failure{Check: "count", Observed: fmt.Sprintf("companion: %d blocks: %s", len(cp.blocks), trunc(snapAll(cp.blocks), 1500)), Expected: fmt.Sprintf("%d blocks: %s", len(model), trunc(snapAll(model), 1500))}
+	default:
+		for i := range model {
+			if got, want := snapRoot(cp.blocks[i]), snapRoot(model[i]); got != want {
+				obs.CompModel = &Failure{Check: "snap", Observed: fmt.Sprintf("companion: block %d: %s", i, firstDiff(got, want)), Expected: trunc(want, 1500)}
+				break
+			}
+		}
+		if got, want := snapRefs(cp.refs), snapRefs(modelRefs); obs.CompModel == nil && got != want {
+			obs.CompModel = &Failure{Check: "refs", Observed: "companion: " + got, Expected: want}
+		}
+	}
 }
 
 // collect runs a garbage collection and gives finalizers a chance to run.
@@ -58,7 +199,7 @@ func runStreamWith(doc []byte, rs *ReaderScn, sharedIP *commonmark.InlineParser)
 	obs := &streamObs{Refs: make(commonmark.ReferenceMap)}
 	var eager *commonmark.InlineParser
 	var firstRefs commonmark.ReferenceMap
-	if rs.Consumer != "" && sharedIP == nil {
+	if (rs.Consumer == "eager" || rs.Consumer == "eager-use") && sharedIP == nil {
 		// first pass of the two-pass recipe: same stream, same schedule, same
 		// fault; only its reference map is kept
 		first := *rs
@@ -74,6 +215,28 @@ func runStreamWith(doc []byte, rs *ReaderScn, sharedIP *commonmark.InlineParser)
 		}
 	}()
 	p := commonmark.NewBlockParser(rd.asReader())
+	var comp *companion
+	if sharedIP == nil {
+		comp = newCompanion(rs.Companion)
+	}
+	if comp != nil && comp.inRead {
+		// the READER re-enters the library: while the main parser is inside
+		// NextBlock, waiting for its Read to return, the reader advances the
+		// other parse (a reader that is itself a Markdown-processing stage)
+		every := comp.scn.Every
+		if every < 1 {
+			every = 1
+		}
+		rd.onRead = func() {
+			if rd.Reads%every == 0 && obs.CompTurns < 64 {
+				comp.turn(comp.scn.Steps)
+				obs.CompTurns++
+			}
+		}
+	} else if comp != nil {
+		comp.turn(comp.scn.Steps)
+		obs.CompTurns++
+	}
 	for {
 		obs.NextCalls++
 		b, err := p.NextBlock()
@@ -110,6 +273,16 @@ func runStreamWith(doc []byte, rs *ReaderScn, sharedIP *commonmark.InlineParser)
 			obs.FirstErr = errors.New("harness: more blocks than bytes")
 			break
 		}
+		if comp != nil && !comp.inRead && comp.scn.Every > 0 && len(obs.Blocks)%comp.scn.Every == 0 && obs.CompTurns < 64 {
+			comp.turn(comp.scn.Steps)
+			obs.CompTurns++
+		}
+	}
+	if comp != nil && !comp.inRead {
+		// the companion goes on after the main stream has ended, and the main
+		// parser is asked again afterwards
+		comp.turn(comp.scn.Steps)
+		obs.CompTurns++
 	}
 	for i := 0; i < rs.ExtraCalls; i++ {
 		obs.NextCalls++
@@ -118,6 +291,10 @@ func runStreamWith(doc []byte, rs *ReaderScn, sharedIP *commonmark.InlineParser)
 			obs.ExtraBlk++
 		}
 		obs.ExtraErrs = append(obs.ExtraErrs, err)
+	}
+	if comp != nil {
+		rd.onRead = nil
+		comp.finish(obs)
 	}
 	rd.reuse()
 	if rs.GC == "end" || rs.GC == "both" {
@@ -138,6 +315,17 @@ func runStreamWith(doc []byte, rs *ReaderScn, sharedIP *commonmark.InlineParser)
 	ip := &commonmark.InlineParser{ReferenceMatcher: obs.Refs}
 	if sharedIP != nil {
 		ip = sharedIP
+	} else if rs.Consumer == "reused-ip" {
+		// a caller that keeps ONE InlineParser value for every document it ever
+		// processes and only re-points its matcher (the struct has that one
+		// exported field): answers or scratch remembered inside the value leak
+		// from one document into the next
+		if reusedIP == nil {
+			reusedIP = &commonmark.InlineParser{}
+		}
+		reusedIP.ReferenceMatcher = obs.Refs
+		ip = reusedIP
+		obs.ReusedIP = true
 	}
 	if eager == nil {
 		for _, b := range obs.Blocks {
@@ -249,7 +437,10 @@ func checkC01Stream(doc []byte, rs *ReaderScn, obs *streamObs) *Failure {
 		// clauses are evaluated only on what was legitimately delivered
 		return nil
 	}
-	return tilingCheck(input, obs.Blocks)
+	if f := tilingCheck(input, obs.Blocks); f != nil {
+		return f
+	}
+	return obs.CompTiling
 }
 
 // checkC01Memory: the in-memory entry point (pre-filled buffer, no reads).
@@ -364,7 +555,7 @@ func checkC08(doc []byte, rs *ReaderScn, obs *streamObs) *Failure {
 			return &Failure{Check: id, Observed: fmt.Sprintf("call %d after the last block returned error %v", i, err), Expected: fmt.Sprintf("an error wrapping %v", want)}
 		}
 	}
-	return nil
+	return obs.CompModel
 }
 
 func errString(e error) string {
